@@ -22,10 +22,11 @@ pub enum ElemKind {
     F64,
     U32,
     OptU64,
+    OptStr,
 }
 
 impl ElemKind {
-    pub const ALL: [ElemKind; 10] = [ElemKind::U8, ElemKind::U64, ElemKind::Str, ElemKind::T24, ElemKind::Zst, ElemKind::Nested, ElemKind::Big, ElemKind::F64, ElemKind::U32, ElemKind::OptU64];
+    pub const ALL: [ElemKind; 11] = [ElemKind::U8, ElemKind::U64, ElemKind::Str, ElemKind::T24, ElemKind::Zst, ElemKind::Nested, ElemKind::Big, ElemKind::F64, ElemKind::U32, ElemKind::OptU64, ElemKind::OptStr];
     pub fn tyname(self) -> &'static str {
         match self {
             ElemKind::U8 => "u8",
@@ -38,6 +39,7 @@ impl ElemKind {
             ElemKind::F64 => "f64",
             ElemKind::U32 => "u32",
             ElemKind::OptU64 => "u64?",
+            ElemKind::OptStr => "String?",
         }
     }
     pub fn suffix(self) -> &'static str {
@@ -52,6 +54,7 @@ impl ElemKind {
             ElemKind::F64 => "f64",
             ElemKind::U32 => "u32",
             ElemKind::OptU64 => "optu64",
+            ElemKind::OptStr => "optstr",
         }
     }
 }
@@ -131,6 +134,31 @@ impl Elem for Option<u64> {
             }
         }
         Ok(MVal::OptInt(*self))
+    }
+    fn debug(&self) -> String {
+        format!("{self:?}")
+    }
+}
+
+impl Elem for Option<RotoString> {
+    const KIND: ElemKind = ElemKind::OptStr;
+    fn from_m(v: &MVal, _: &Inner) -> Self {
+        match v {
+            MVal::OptStr(o) => o.as_ref().map(|s| RotoString::from(s.as_str())),
+            _ => None,
+        }
+    }
+    fn to_m(&self, _: &mut Inner) -> Result<MVal, String> {
+        match self {
+            None => Ok(MVal::OptStr(None)),
+            Some(r) => {
+                let s: &str = r.as_ref();
+                if s.bytes().any(|b| b == alloc::POISON_FREED || b == alloc::POISON_FRESH) {
+                    return Err("String? element contains poison bytes".to_string());
+                }
+                Ok(MVal::OptStr(Some(s.to_string())))
+            }
+        }
     }
     fn debug(&self) -> String {
         format!("{self:?}")
@@ -429,6 +457,7 @@ pub struct Warm {
     pub f64: Arc<Fns<f64>>,
     pub u32: Arc<Fns<u32>>,
     pub optu64: Arc<Fns<Option<u64>>>,
+    pub optstr: Arc<Fns<Option<RotoString>>>,
     pub sum_u64: F<fn(List<u64>) -> u64>,
     pub join_str: F<fn(List<RotoString>, RotoString) -> RotoString>,
 }
@@ -459,6 +488,7 @@ pub fn warm() -> Warm {
         f64: Arc::new(Fns::load(&mut pkg)),
         u32: Arc::new(Fns::load(&mut pkg)),
         optu64: Arc::new(Fns::load(&mut pkg)),
+        optstr: Arc::new(Fns::load(&mut pkg)),
         sum_u64: pkg.get_function("sum_u64").expect("sum_u64"),
         join_str: pkg.get_function("join_str").expect("join_str"),
         _rt: rt,
@@ -500,6 +530,11 @@ impl WarmSel for Val<Zst> {
 impl WarmSel for u32 {
     fn fns(w: &Warm) -> Arc<Fns<Self>> {
         w.u32.clone()
+    }
+}
+impl WarmSel for Option<RotoString> {
+    fn fns(w: &Warm) -> Arc<Fns<Self>> {
+        w.optstr.clone()
     }
 }
 impl WarmSel for Option<u64> {
